@@ -17,7 +17,13 @@ use std::sync::atomic::{AtomicBool, Ordering};
 use std::sync::Mutex;
 use std::time::Instant;
 
-pub const VERIF_ROOT: &str = "/verif";
+/// Root of the verification tree: /verif, or $VERIF_ROOT for background runs from a snapshot.
+pub fn verif_root() -> PathBuf {
+    match std::env::var("VERIF_ROOT") {
+        Ok(v) if !v.is_empty() => PathBuf::from(v),
+        _ => PathBuf::from("/verif"),
+    }
+}
 
 #[derive(Clone, Copy, PartialEq, Eq, Debug)]
 pub enum Tier {
@@ -560,7 +566,7 @@ impl Report {
         let id = self.ctx.id;
 
         // write replay files
-        let replay_dir = PathBuf::from(VERIF_ROOT).join("work").join("replay");
+        let replay_dir = verif_root().join("work").join("replay");
         let _ = std::fs::create_dir_all(&replay_dir);
         for v in self.violations.iter_mut() {
             let doc = json!({
@@ -650,7 +656,7 @@ impl Report {
             "wall_s": (wall * 1000.0).round() / 1000.0,
             "violations": self.violations.len(),
         });
-        let ev_dir = PathBuf::from(VERIF_ROOT).join("evidence");
+        let ev_dir = verif_root().join("evidence");
         let _ = std::fs::create_dir_all(&ev_dir);
         let ev_path = ev_dir.join(format!("{}.json", id));
         if let Err(e) = std::fs::write(&ev_path, serde_json::to_string_pretty(&evidence).unwrap_or_default()) {
